@@ -43,10 +43,10 @@ ASSUMPTIONS = [
     "leak into this property",
 ]
 BOUNDS = {
-    "quick": dict(models=12, arg_variants="1-3 per model", pool=6, subset_size_max=3, builders=2, jit=False),
-    "thorough": dict(models=12, arg_variants="1-3 per model", pool=6, subset_size_max=6, builders=2, jit="size<=2 subsets"),
+    "quick": dict(models=12, arg_variants="1-3 per model", pool=6, subset_size_max=3, builders="| chain for every subset, .at[..].set chain for every second subset of size >= 2", jit=False),
+    "thorough": dict(models=12, arg_variants="1-3 per model", pool=6, subset_size_max=6, builders="| chain for every subset, .at[..].set chain for every second subset of size >= 2", jit="size<=2 subsets"),
 }
-JOBS = {"quick": 4, "thorough": 8}
+JOBS = {"quick": 6, "thorough": 12}
 
 SL = "<slice>"  # full-slice level in a pool address
 N = 3
@@ -355,6 +355,7 @@ def _run(name, ai, tier):
         kmax = BOUNDS[tier]["subset_size_max"]
         idxs = range(len(pool))
         ctx.sample(dict(model=name, traceable=sorted(T), pool=[list(map(str, p)) for p in pool]))
+        n_sub = 0
         for k in range(0, kmax + 1):
             for sub in itertools.combinations(idxs, k):
                 addrs = [pool[i] for i in sub]
@@ -364,7 +365,8 @@ def _run(name, ai, tier):
                 entries = [(pool[i], pool_value(i, pool[i])) for i in sub]
                 invalid = [i for i in sub if static_part(pool[i]) not in T]
                 mixed = mixed_sort(addrs)
-                for builder in ("or", "at"):
+                n_sub += 1
+                for builder in ("or", "at") if (n_sub % 2 == 0 and k >= 2) else ("or",):
                     key = (name, ai, sub, builder)
                     ctx.ev(key, nontrivial=k > 0)
                     detail = dict(model=name, args_variant=ai, subset=[list(map(str, a)) for a in addrs],
@@ -379,7 +381,8 @@ def _run(name, ai, tier):
                     try:
                         res = chm.invalid_subset(gf, args)
                     except Exception as e:  # noqa: BLE001
-                        ctx.fail(_component(name), "invalid_subset", cls, f"exception:{type(e).__name__}",
+                        # an exception does not depend on the subset: class = the model
+                        ctx.fail(_component(name), "invalid_subset", "model:" + name, f"exception:{type(e).__name__}",
                                  dict(detail, message=str(e)[:200]))
                         continue
                     _compare(ctx, name, cls, detail, res, pool, sub, invalid, mixed)
@@ -419,8 +422,16 @@ def _compare(ctx, name, cls, detail, res, pool, sub, invalid, mixed, mode="eager
         return
     for i, addr in enumerate(pool):
         want = i in invalid
+        if i not in sub and any(is_idx(c) for c in addr):
+            # an index is only probed at addresses the constraint map itself contains (an int or slice
+            # lookup on a map without that index level is outside the finite-map model)
+            ctx.note("foreign_indexed_addresses_not_probed")
+            continue
         try:
-            readings = read(res, addr, direct=not mixed)
+            # direct lookups only where they are inside the finite-map model: no index level beside a
+            # name level, and an int is only probed at an address the result is expected to hold
+            direct = (not mixed) and (want or not any(is_idx(c) for c in addr))
+            readings = read(res, addr, direct=direct)
         except Exception as e:  # noqa: BLE001
             ctx.fail(comp, "read_result", cls, f"exception:{type(e).__name__}",
                      dict(detail, mode=mode, address=list(map(str, addr)), message=str(e)[:200]))
@@ -467,7 +478,7 @@ def _jit_pass(ctx, name, ai, gf, args, T, pool):
             try:
                 res = jax.jit(f)(vals)
             except Exception as e:  # noqa: BLE001
-                ctx.fail(_component(name), "invalid_subset", cls, f"exception:{type(e).__name__}",
+                ctx.fail(_component(name), "invalid_subset", "model:" + name, f"exception:{type(e).__name__}",
                          dict(detail, mode="jit", message=str(e)[:200]))
                 continue
             _compare(ctx, name, cls, detail, res, pool, sub, invalid, mixed, mode="jit")
